@@ -50,6 +50,13 @@ pub enum Mem {
 }
 
 impl Mem {
+    /// forget everything written so far (the harness wipes the simulated frame memory between phases)
+    pub fn wipe(&mut self) {
+        match self {
+            Mem::Dense { cells, .. } => cells.iter_mut().for_each(|c| *c = UNTOUCHED),
+            Mem::Sparse(m) => m.clear(),
+        }
+    }
     pub fn new(w: u32, h: u32) -> Self {
         let n = w as u64 * h as u64;
         if n <= (1 << 22) {
